@@ -42,6 +42,10 @@ pub struct ChildSpec {
     /// until then the process is alive and wait() does not return
     #[serde(default)]
     pub kill_lag: u64,
+    /// fault: a wait() that is pending this many ms after the spawn fails there and then (once) - an I/O error while
+    /// the supervisor is asleep on something else, not at the first poll
+    #[serde(default)]
+    pub wait_fail_after: Option<u64>,
 }
 
 impl Default for ChildSpec {
@@ -55,6 +59,7 @@ impl Default for ChildSpec {
             fail_wait: false,
             grandchildren: 0,
             kill_lag: 0,
+            wait_fail_after: None,
         }
     }
 }
@@ -80,6 +85,7 @@ pub struct ChildState {
     pub sig_failed: bool,
     pub kill_failed: bool,
     pub wait_failed: bool,
+    pub late_wait_failed: bool,
     pub kill_on_drop: bool,
     pub group: bool,
     /// group members still alive (apart from the leader)
@@ -178,6 +184,7 @@ pub fn install_interposer() {
                     sig_failed: false,
                     kill_failed: false,
                     wait_failed: false,
+                    late_wait_failed: false,
                     kill_on_drop,
                     group: group || session,
                     members_alive: members,
@@ -346,6 +353,27 @@ impl TokioChildWrapper for SimChild {
                 let now = now_ms();
                 let (death, notify, start) =
                     with_run(|r| (r.world.children[id as usize].death, r.world.children[id as usize].notify.clone(), r.start));
+                // the late one-shot failure: due at spawn + d, if the process is still alive then
+                let late = with_run(|r| {
+                    let c = &r.world.children[id as usize];
+                    if c.late_wait_failed {
+                        None
+                    } else {
+                        c.spec.wait_fail_after.map(|d| c.spawned_at + d)
+                    }
+                });
+                if let Some(at) = late {
+                    let dead = matches!(death, Some((d, _)) if d <= now);
+                    if now >= at && !dead {
+                        with_run(|r| {
+                            r.world.children[id as usize].late_wait_failed = true;
+                            r.world.faults.wait_fail += 1;
+                        });
+                        log(Ev::WaitFail { child: id });
+                        return Err(Error::new(ErrorKind::Other, format!("sim: wait on child {id} fails late")));
+                    }
+                }
+                let late_sleep = late.filter(|at| *at > now).map(|at| start + ms(at));
                 match death {
                     Some((at, st)) if at <= now => {
                         note_exit(id, now);
@@ -362,15 +390,27 @@ impl TokioChildWrapper for SimChild {
                     }
                     Some((at, _)) => {
                         let notified = notify.notified();
+                        let until = match late_sleep {
+                            Some(l) if l < start + ms(at) => l,
+                            _ => start + ms(at),
+                        };
                         tokio::select! {
                             biased;
                             _ = notified => {}
-                            _ = tokio::time::sleep_until(start + ms(at)) => {}
+                            _ = tokio::time::sleep_until(until) => {}
                         }
                     }
-                    None => {
-                        notify.notified().await;
-                    }
+                    None => match late_sleep {
+                        Some(l) => {
+                            let notified = notify.notified();
+                            tokio::select! {
+                                biased;
+                                _ = notified => {}
+                                _ = tokio::time::sleep_until(l) => {}
+                            }
+                        }
+                        None => notify.notified().await,
+                    },
                 }
             }
         })
